@@ -236,6 +236,7 @@ func c14Maps(c *core.Ctx) {
 		ad := c.Named(c14Types + ".AccountData")
 		encoders := []*types.Func{c.FuncObj(c14Rlp + ".Encode"), c.FuncObj(c14Rlp + ".EncodeToBytes"), c.FuncObj(c14Rlp + ".EncodeToReader")}
 		allowed := map[string]bool{"(*store.ChainDatabase).blockCommit": true}
+		expandAllowed(c, allowed)
 		n := 0
 		for _, s := range c.CallSites(encoders...) {
 			if isTestHelper(c, s.Caller) {
